@@ -26,6 +26,7 @@ def sig(b):
     r = b.get("rec") or {}
     n = r.get("n", 0)
     return {"why": (b.get("why") or "").strip('"'), "iface": r.get("iface"), "skip": r.get("skip"), "miss": r.get("miss"),
+            "spell": r.get("spell"), "dup": r.get("dup"),
             "path": "batched" if (r.get("iface") == "with_config" and n > 1000) or r.get("iface") == "files_batched" else "unbatched"}
 
 
